@@ -18,7 +18,7 @@ RULE = ('marker statements: 1-3 tables over 3 integrations (+ default namespace)
         'positions {FROM, JOIN, WHERE-subquery, target-subquery, CASE-operand subquery, function-argument subquery, CTE, INSERT..SELECT, '
         'UPDATE..FROM, DELETE-subquery} x qualifier spellings {lower, UPPER, Capitalised} x catalog forms; non-trivial = query with >= 2 '
         'tables or a model; distinct by (statement, catalog form)')
-RULE += '; also: fully qualified columns, DELETE/UPDATE with qualified WHERE, select-from-model, the same model in two sub-queries, CTE named like a foreign table, ten catalog spellings, one planner planning a sequence (CTE-then-table sequences)'
+RULE += '; data tables named like a model of the catalog, three-part table names whose schema is spelled like another integration / project; also: fully qualified columns, DELETE/UPDATE with qualified WHERE, select-from-model, the same model in two sub-queries, CTE named like a foreign table, ten catalog spellings, one planner planning a sequence (CTE-then-table sequences)'
 ASSUMPTIONS = ['marker names are unique, so an identifier part tb_NN / mdl_N identifies its table / model wherever it appears',
                'first name part matched case-insensitively against integrations and projects, otherwise the default namespace']
 BUDGET = {'quick': (8, 240), 'thorough': (16, 1800)}
@@ -26,7 +26,7 @@ INTS = ['int1', 'int2', 'int3']
 
 
 def floors(tier):
-    return {'plans_checked': 1500, 'len:positions': 12, 'len:spellings': 3, 'len:catalog_forms': 5, 'metamorphic_pairs': 500, 'model_queries': 200}
+    return {'plans_checked': 1500, 'len:positions': 14, 'len:spellings': 3, 'len:catalog_forms': 5, 'metamorphic_pairs': 500, 'model_queries': 200}
 
 
 def ceilings(tier):
@@ -47,11 +47,19 @@ class Case:
         self.n = 0
         self.positions = set()
         self.uses_project = False
+        self.schemas = {}      # marker -> schema part of a three-part table name
+        self.needs_zz = False
 
-    def tbl(self, home=None):
+    def tbl(self, home=None, name=None, schema=None):
         self.n += 1
-        m = f'tb_{self.n:02d}'
-        if home is None and self.r.random() < 0.12:
+        m = name or f'tb_{self.n:02d}'
+        if schema:
+            # a three-part name: integration.schema.table (the schema may be spelled like another integration)
+            home = home or self.r.choice(INTS)
+            self.homes[m] = home
+            self.schemas[m] = schema
+            return f'{spell(home, self.style)}.{schema}.{m}'
+        if home is None and name is None and self.r.random() < 0.12:
             home = 'proj2'              # a table (view) of a project that holds no model: declared in the catalog as a non-data entry
             self.uses_project = True
         home = home or self.r.choice(INTS)
@@ -68,8 +76,32 @@ def build(r, style, kind=None):
     kind = kind or r.choice(['from', 'join', 'join3', 'where-sub', 'target-sub', 'case-sub', 'func-sub', 'cte', 'insert-select', 'update-from',
                              'delete-sub', 'model', 'model-version', 'model-2tables', 'union', 'where-sub-join', 'target-sub-join',
                              'model-twice', 'model-twice', 'qualified-cols', 'delete-qualified', 'update-qualified', 'model-select',
-                             'model-sub-twice', 'cte-named-like-foreign-table'])
+                             'model-sub-twice', 'cte-named-like-foreign-table', 'table-named-like-model', 'schema-named-like-integration'])
     c.positions.add(kind)
+    if kind == 'table-named-like-model':
+        # a data table whose name is also the name of a model in the catalog (of the default project, or of another project)
+        c.needs_zz = True
+        home = r.choice(INTS)
+        tz = c.tbl(home, name=r.choice(['zz_last', 'zz_before', 'zz_after']))
+        t2 = c.tbl(r.choice([i for i in INTS if i != home]))
+        return r.choice([
+            f'SELECT a1.c, a2.c FROM {tz} AS a1 JOIN {t2} AS a2 ON a1.k = a2.k WHERE a1.x > 1',
+            f'SELECT a2.c FROM {t2} AS a2 WHERE a2.k IN (SELECT a1.c FROM {tz} AS a1)',
+            f'INSERT INTO {t2} (c) SELECT a1.c FROM {tz} AS a1',
+            f'SELECT a1.c FROM {tz} AS a1 UNION SELECT a2.c FROM {t2} AS a2',
+            f'SELECT a1.c, a2.c FROM {t2} AS a2 LEFT JOIN {tz} AS a1 ON a1.k = a2.k']), c
+    if kind == 'schema-named-like-integration':
+        home = r.choice(INTS)
+        other = r.choice([i for i in INTS if i != home])
+        sch = r.choice([other, other, 'sch', 'mindsdb', 'proj', other.upper()])
+        ts_ = c.tbl(home, schema=sch)
+        if r.random() < 0.2:
+            return f'SELECT a1.c FROM {ts_} AS a1 WHERE a1.k = 1', c
+        t2 = c.tbl(r.choice([other, home, None]))
+        return r.choice([
+            f'SELECT a1.c, a2.c FROM {ts_} AS a1 JOIN {t2} AS a2 ON a1.k = a2.k WHERE a1.x > 1',
+            f'SELECT a2.c FROM {t2} AS a2 WHERE a2.k IN (SELECT a1.c FROM {ts_} AS a1)',
+            f'SELECT a2.c, a1.c FROM {t2} AS a2 JOIN {ts_} AS a1 ON a1.k = a2.k']), c
     t1 = c.tbl()
     if kind == 'from':
         return f'SELECT a1.c FROM {t1} AS a1 WHERE a1.k = 1', c
@@ -151,7 +183,7 @@ def build(r, style, kind=None):
 
 def model_metadata(case, variant=0):
     out = [{'name': m, 'integration_name': p, 'timeseries': False, 'to_predict': ['y']} for m, (p, v) in case.models.items()]
-    if variant:
+    if variant or getattr(case, 'needs_zz', False):
         # a catalog with further models around the one the query uses; a model of the default project may leave its project out
         for rec in out:
             if rec['integration_name'] == 'mindsdb':
@@ -202,7 +234,7 @@ def catalog(form, case, default_ns):
     return kw
 
 
-MARK = re.compile(r'^(tb_\d+|mdl_\d+)$', re.I)
+MARK = re.compile(r'^(tb_\d+|mdl_\d+|zz_[a-z]+)$', re.I)
 
 
 def markers_in(obj):
@@ -269,8 +301,16 @@ def judge(case, rows, default_ns):
                 fetched.setdefault(m, set()).add(integ)
                 if integ != home:
                     out.append(({'defect': 'table-sent-to-wrong-integration'}, {'marker': m, 'home': home, 'sent_to': integ}))
+                sch = case.schemas.get(m)
                 for parts in occ:
-                    if len(parts) > 1 and parts[0].lower() in INTS + ['mindsdb', 'proj', 'proj2']:
+                    if sch is not None:
+                        # integration.schema.table: the integration goes, the schema stays (whatever it is spelled like)
+                        pre = [x.lower() for x in parts[:[x.lower() for x in parts].index(m)]]
+                        if pre == [home, sch.lower()]:
+                            out.append(({'defect': 'qualifier-kept-in-pushed-query'}, {'marker': m, 'parts': parts, 'integration': integ}))
+                        elif pre != [sch.lower()]:
+                            out.append(({'defect': 'schema-part-lost-or-changed'}, {'marker': m, 'parts': parts, 'integration': integ, 'schema': sch}))
+                    elif len(parts) > 1 and parts[0].lower() in INTS + ['mindsdb', 'proj', 'proj2']:
                         out.append(({'defect': 'qualifier-kept-in-pushed-query'}, {'marker': m, 'parts': parts, 'integration': integ}))
         elif r[0].startswith('dml'):
             parts = [p.lower() for p in r[1]]
@@ -295,6 +335,10 @@ def judge(case, rows, default_ns):
         if m not in fetched:
             out.append(({'defect': 'table-never-fetched'}, {'marker': m, 'home': home}))
     preds = [r for r in rows if r[0] == 'predict']
+    for p in preds:
+        for x in p[2]:
+            if x.lower() in case.homes:
+                out.append(({'defect': 'data-table-planned-as-model'}, {'marker': x, 'home': case.homes[x.lower()], 'namespace': p[1]}))
     for m, (proj, ver) in case.models.items():
         mine = [p for p in preds if m in [x.lower() for x in p[2]]]
         if not mine:
